@@ -424,3 +424,177 @@ pub fn c16(buf: &[u8], storage: bool) -> CheckResult {
     let normalised = consumed[start.min(consumed.len())..] != b2[..];
     Ok(Pass::new(normalised).class(kind).class_if(normalised, "parser-normalised-input").class_if(!normalised, "canonical-input"))
 }
+
+// ------------------------------------------------------------------------------------------------
+// C13 on arbitrary payloads: reference decode of packed fields
+
+/// decode `data` along `types` as the statement prescribes; `None` = must be refused
+pub fn c13_reference(types: &[RType], be: bool, data: &[u8]) -> Option<Vec<RVal>> {
+    let mut c = refcodec::Cur { b: data, p: 0, be };
+    let mut out = vec![];
+    for t in types {
+        out.push(match t.kind {
+            RKind::Bool => RVal::Bool(c.u8()?),
+            RKind::Sint(b) => RVal::I(c.sint(b)?),
+            RKind::Uint(b) => RVal::U(c.uint(b)?),
+            RKind::Float(32) => RVal::F32(c.u32()?),
+            RKind::Float(_) => RVal::F64(c.uint(64)? as u64),
+            RKind::Str => {
+                let n = c.u16()? as usize;
+                RVal::Str(String::from_utf8(c.take(n)?.to_vec()).ok()?)
+            }
+            RKind::Raw => {
+                let n = c.u16()? as usize;
+                RVal::Raw(c.take(n)?.to_vec())
+            }
+            RKind::SintFx(_) | RKind::UintFx(_) => return None,
+        });
+    }
+    Some(out)
+}
+
+/// construct_arguments on an arbitrary payload must agree with the reference decode
+pub fn c13_decode(types: &[RType], be: bool, data: &[u8]) -> CheckResult {
+    let ctypes: Vec<_> = types.iter().map(type_to_crate).collect();
+    let e = if be { Endianness::Big } else { Endianness::Little };
+    let got = guard(|| construct_arguments(e, &ctypes, data)).map_err(|p| Violation::from_panic(&format!("construct_arguments({:?}, {:?}) on {}", e, types, hex_short(data)), &p))?;
+    if types.iter().any(|t| matches!(t.kind, RKind::SintFx(_) | RKind::UintFx(_))) {
+        return Ok(Pass::new(false).class("fixed-point:no-panic-only"));
+    }
+    let want = c13_reference(types, be, data);
+    match (got, want) {
+        (Err(_), None) => Ok(Pass::new(!types.is_empty()).class("refused")),
+        (Ok(args), Some(vals)) => {
+            if args.len() != vals.len() {
+                return Err(viol!("construct:count", "{} arguments for {} types", args.len(), vals.len()));
+            }
+            for (i, (a, v)) in args.iter().zip(vals.iter()).enumerate() {
+                let got = value_from_crate(&a.value);
+                let bits_ok = match types[i].kind {
+                    RKind::Sint(b) | RKind::Uint(b) | RKind::Float(b) => value_bits(&a.value) == b,
+                    _ => true,
+                };
+                if got != *v || !bits_ok || a.type_info != ctypes[i] || a.name.is_some() || a.unit.is_some() {
+                    return Err(viol!(
+                        format!("construct:{:?}:{}:value", types[i].kind, if be { "be" } else { "le" }),
+                        "argument {} of types {:?} ({}) decoded to {:?} (type {:?}), the packed field is {:?}; payload={}",
+                        i, types, if be { "big endian" } else { "little endian" }, a.value, a.type_info, v, hex_short(data)
+                    ));
+                }
+            }
+            Ok(Pass::new(types.len() >= 2).class("decoded"))
+        }
+        (Ok(a), None) => Err(viol!("construct:accepted-bad-payload", "construct_arguments accepted a payload that is too short or holds a non-UTF-8 string: {} arguments for types {:?}; payload={}", a.len(), types, hex_short(data))),
+        (Err(e), Some(_)) => Err(viol!("construct:refused-good-payload", "construct_arguments refused a decodable payload: {:?}; types {:?}; payload={}", e, types, hex_short(data))),
+    }
+}
+
+// ------------------------------------------------------------------------------------------------
+// entry points shared by the libFuzzer targets and by the triage of their findings
+
+pub const SIGNAL_KINDS: [RKind; 15] = [
+    RKind::Bool,
+    RKind::Sint(8),
+    RKind::Sint(16),
+    RKind::Sint(32),
+    RKind::Sint(64),
+    RKind::Sint(128),
+    RKind::Uint(8),
+    RKind::Uint(16),
+    RKind::Uint(32),
+    RKind::Uint(64),
+    RKind::Uint(128),
+    RKind::Float(32),
+    RKind::Float(64),
+    RKind::Str,
+    RKind::Raw,
+];
+
+/// target `bytes`: first byte = mode bits (bit0 storage, bits1-3 filter index, bit4 format logs), rest = buffer
+pub fn fuzz_bytes(prop: &str, data: &[u8]) -> CheckResult {
+    let Some((&mode, buf)) = data.split_first() else { return Ok(Pass::new(false)) };
+    let storage = mode & 1 != 0;
+    match prop {
+        "C02" => c02_decode(buf, storage),
+        "C04" => {
+            let f = filter_by_index((mode >> 1) & 7);
+            c04(buf, storage, f.as_ref())
+        }
+        "C16" => c16(buf, storage),
+        _ => {
+            install_logger();
+            format_logs(mode & 0x10 != 0 && buf.len() < 2048);
+            let types: Vec<dlt_core::dlt::TypeInfo> = buf.iter().take((mode >> 5) as usize).map(|b| type_to_crate(&RType { kind: SIGNAL_KINDS[*b as usize % 15], vari: false, trai: false, scod: 0 })).collect();
+            let r = c03(buf, (mode >> 1) & 7, buf.len() as u8, &types, mode & 0x80 != 0);
+            format_logs(false);
+            r
+        }
+    }
+}
+
+/// target `args`: byte0 = bit0 byte order, bits1-4 number of types; then one kind selector per type; rest = payload
+pub fn fuzz_args(data: &[u8]) -> CheckResult {
+    let Some((&h, rest)) = data.split_first() else { return Ok(Pass::new(false)) };
+    let n = ((h >> 1) & 15) as usize;
+    if rest.len() < n {
+        return Ok(Pass::new(false));
+    }
+    let types: Vec<RType> = rest[..n].iter().map(|b| RType { kind: SIGNAL_KINDS[(*b & 15) as usize % 15], vari: b & 0x10 != 0, trai: b & 0x20 != 0, scod: b >> 6 }).collect();
+    c13_decode(&types, h & 1 != 0, &rest[n..])
+}
+
+/// target `fibex` (in-process part): load the document, no panic; hangs are found by libFuzzer's
+/// timeout and re-judged by the CPU-budget evaluator before anything is reported
+pub fn fuzz_fibex(data: &[u8], path: &std::path::Path) -> CheckResult {
+    if std::fs::write(path, data).is_err() {
+        return Ok(Pass::new(false));
+    }
+    let p = path.to_string_lossy().to_string();
+    let r = guard(|| dlt_core::fibex::gather_fibex_data(dlt_core::fibex::FibexConfig { fibex_file_paths: vec![p] })).map_err(|p| Violation::from_panic("gather_fibex_data", &p))?;
+    Ok(Pass::new(true).class(if r.is_some() { "verdict:model" } else { "verdict:refused" }))
+}
+
+/// Byte-level delta debugging under a fixed oracle: keep shrinking while the same signature is reported.
+pub fn minimise(data: &[u8], fails: &dyn Fn(&[u8]) -> Option<String>) -> Vec<u8> {
+    let Some(sig) = fails(data) else { return data.to_vec() };
+    let mut cur = data.to_vec();
+    let mut chunk = (cur.len() / 2).max(1);
+    let mut budget = 20_000usize;
+    while chunk >= 1 && budget > 0 {
+        let mut i = 1.min(cur.len()); // never drop the mode byte first
+        let mut progressed = false;
+        while i < cur.len() && budget > 0 {
+            let end = (i + chunk).min(cur.len());
+            let mut cand = cur[..i].to_vec();
+            cand.extend_from_slice(&cur[end..]);
+            budget -= 1;
+            if fails(&cand).as_deref() == Some(sig.as_str()) {
+                cur = cand;
+                progressed = true;
+            } else {
+                i += chunk;
+            }
+        }
+        if !progressed {
+            if chunk == 1 {
+                break;
+            }
+            chunk /= 2;
+        }
+    }
+    // canonicalise bytes towards zero
+    for i in 1..cur.len() {
+        if budget == 0 {
+            break;
+        }
+        if cur[i] != 0 {
+            let old = cur[i];
+            cur[i] = 0;
+            budget -= 1;
+            if fails(&cur).as_deref() != Some(sig.as_str()) {
+                cur[i] = old;
+            }
+        }
+    }
+    cur
+}
